@@ -9,6 +9,7 @@ import QR.Proofs.Pinned
 import QR.Proofs.SourceTieC05b
 import QR.Proofs.SourceTieB2
 import QR.Proofs.SourceTieT1
+import QR.Proofs.SourceTieD6b
 /-
 C05 - function patterns, geometry and data placement of every symbol.
 Finite part: alignment table = Annex E closed form, mask functions = ISO Table 10.
@@ -286,6 +287,65 @@ theorem C05_source_map_cells_src (n dataLen col c inc row bi by_ : Int) :
   QR.SourceTieT.map_cells_src n dataLen col c inc row bi by_
 
 end SourceTieT2b
+
+/-! ### Source tie, part 4 (T2 plugin `tools/t2_fragments/frag_d6.py`): small leftovers, translated whole from /repo's current
+    Python AST (`QR.Gen.Code.lo_*`, regenerated on every run). Restated verbatim from `QR/Proofs/SourceTieD6*.lean`. -/
+section SourceTieD6
+open QR.Model QR.Gen.Code QR.SourceTieD6
+
+/-- `util.pattern_position(version)` (`return PATTERN_POSITION_TABLE[version - 1]`): `Model.patternPosition` is the translated
+    lookup in the regenerated table, for every `1 ≤ version` -/
+theorem C05_source_patternPosition_src (version : Nat) (hv : 1 ≤ version) :
+    patternPosition version =
+      (match lo_pattern_position Gen.PATTERN_POSITION_TABLE (version : Int) with
+       | some a => .ok a | none => .error .indexError) :=
+  QR.SourceTieD6.patternPosition_src version hv
+
+/-- the point the hypothesis excludes: at version 0 Python's index -1 wraps to the last row, `Model.patternPosition` reads the
+    first (unreachable through `QRCode`, whose version setter validates) -/
+theorem C05_source_pattern_position_zero :
+    patternPosition 0 = .ok [] ∧
+    lo_pattern_position Gen.PATTERN_POSITION_TABLE 0 = some [6, 30, 58, 86, 114, 142, 170] :=
+  QR.SourceTieD6.pattern_position_zero
+
+/-- `QRCode.setup_position_probe_pattern(row, col)` translated whole (both loops over -1..7, both `continue` tests, the
+    three-clause colour expression, both assignments) equals `Model.setupProbe`, for every size, matrix and corner -/
+theorem C05_source_setupProbe_src (n : Nat) (m : Mat) (row col : Nat) :
+    setupProbe n m row col = lo_setup_position_probe_pattern isSetM setM (n : Int) (row : Int) (col : Int) m :=
+  QR.SourceTieD6.setupProbe_src n m row col
+
+/-- `QRCode.setup_timing_pattern()` translated whole (column-6 loop first, then row 6; range 8 .. n-8; the `is not None`
+    skips; `r % 2 == 0`) equals `Model.setupTiming`, for every size and matrix -/
+theorem C05_source_setupTiming_src (n : Nat) (m : Mat) :
+    setupTiming n m = lo_setup_timing_pattern isSetM setM (n : Int) m :=
+  QR.SourceTieD6.setupTiming_src n m
+
+/-- `QRCode.setup_position_adjust_pattern()` translated whole (index loops over `pos`, the `is not None` skip, the 5x5 loops
+    over -2..2, the colour expression) equals `Model.setupAdjust`, for every matrix and position list -/
+theorem C05_source_setupAdjust_src (m : Mat) (pos : List Nat) :
+    setupAdjust m pos = lo_setup_position_adjust_pattern isSetM setM (pos.map Int.ofNat) m :=
+  QR.SourceTieD6.setupAdjust_src m pos
+
+/-- `setup_position_adjust_pattern` never writes at a negative index: every centre of `PATTERN_POSITION_TABLE` is ≥ 6 -/
+theorem C05_source_adjust_positions_ge : ∀ row ∈ Gen.PATTERN_POSITION_TABLE, ∀ p ∈ row, 6 ≤ p :=
+  QR.SourceTieD6.adjust_positions_ge
+
+/-- `Model.blank version` (the function patterns `makeImpl` builds on a cache miss) is the composition of the three
+    translated pattern writers of qrcode/main.py at the translated `pattern_position(version)`, for every version ≥ 1 -/
+theorem C05_source_blank_patterns_src (version : Nat) (hv : 1 ≤ version) :
+    blank version =
+      (match lo_pattern_position Gen.PATTERN_POSITION_TABLE (version : Int) with
+       | none => .error .indexError
+       | some pos =>
+         let n := version * 4 + 17
+         let P := fun (m : Mat) (row col : Nat) =>
+           lo_setup_position_probe_pattern isSetM setM (n : Int) (row : Int) (col : Int) m
+         .ok (lo_setup_timing_pattern isSetM setM (n : Int)
+               (lo_setup_position_adjust_pattern isSetM setM (pos.map Int.ofNat)
+                 (P (P (P (Mat.empty n) 0 0) (n - 7) 0) 0 (n - 7))))) :=
+  QR.SourceTieD6.blank_patterns_src version hv
+
+end SourceTieD6
 
 /-- the Python functions this property's model mirrors have, in /repo's current working tree, exactly the normalised
     ASTs the model was written and validated against (fingerprints regenerated by T1 on every run) -/
